@@ -6,7 +6,6 @@ set -e
 mkdir -p bin evidence .scratch
 ./gen_overlay.sh
 go build -overlay $GEN/overlay.json -o bin/pcheck ./cmd/pcheck
-if [ -d cmd/kscheck ]; then
-  go build -overlay $GEN/overlay_ks.json -o bin/kscheck ./cmd/kscheck
-fi
+go build -overlay $GEN/overlay_ks.json -o bin/kscheck ./cmd/kscheck
+go build -race -overlay $GEN/overlay_race.json -o bin/ksrace ./cmd/ksrace
 echo "setup ok"
